@@ -1,5 +1,11 @@
-// Package vsched is a cooperative, controlled scheduler for instrumented code.
-// SPIKE: validates DESIGN.md §4 E1. Not framework code.
+// Package vsched is a cooperative, controlled scheduler for instrumented code
+// (DESIGN.md §4 E1). Exactly one managed goroutine ("thread") runs at a time;
+// before every operation that can block or that races by design the thread
+// parks at a scheduling point and the scheduler picks which alternative runs
+// next. Executions are replayed from choice prefixes by the explorer
+// (explore.go), which enumerates all schedules up to a delay or preemption
+// bound, modulo happens-before equivalence (state keys built from per-thread
+// causal-history hashes).
 package vsched
 
 import (
@@ -99,6 +105,7 @@ type Point struct {
 	NRunner  int
 	NFirst   int // alternatives belonging to the first thread in canonical order
 	Desc     string
+	FP       uint64 // fingerprint (canonical thread id, op kind, site) checked on replay
 }
 
 func (p Point) nRunnerAlts() int { return p.NRunner }
@@ -112,8 +119,14 @@ type Sched struct {
 	tearing bool
 	wg      sync.WaitGroup
 
-	prefix []int
-	trace  []Point
+	prefix   []int
+	prefixFP []uint64
+	trace    []Point
+	// ForeignGrace is how long the scheduler polls in real time for foreign
+	// events (ctx cancellation by timers, bigmachine goroutines) when no
+	// alternative is enabled, before declaring a deadlock.
+	ForeignGrace time.Duration
+	Fails        []string // monitor failures recorded with Fail during this execution
 	// results
 	Deadlock   bool
 	Report     string
@@ -472,7 +485,13 @@ func (s *Sched) alternatives(t *Thread) []alt {
 
 // RunOnce executes body under the scheduler following prefix, then default choices.
 func RunOnce(prefix []int, body func(), seen map[uint64]int) *Sched {
-	s := &Sched{byGoid: map[int64]*Thread{}, yieldc: make(chan *Thread), prefix: prefix, StepLimit: 20000, chanH: map[uintptr]uint64{}, objH: map[uintptr]uint64{}, Seen: seen}
+	return RunOnceCfg(prefix, nil, body, seen, 0)
+}
+
+// RunOnceCfg is RunOnce with replay fingerprints and a foreign-event grace period.
+func RunOnceCfg(prefix []int, prefixFP []uint64, body func(), seen map[uint64]int, grace time.Duration) *Sched {
+	s := &Sched{byGoid: map[int64]*Thread{}, yieldc: make(chan *Thread), prefix: prefix, prefixFP: prefixFP, ForeignGrace: grace,
+		StepLimit: 20000, chanH: map[uintptr]uint64{}, objH: map[uintptr]uint64{}, Seen: seen}
 	gl.Lock()
 	epoch++
 	cs = s
@@ -520,8 +539,11 @@ func RunOnce(prefix []int, body func(), seen map[uint64]int) *Sched {
 				break
 			}
 			// nothing enabled: maybe foreign events pending
+			if s.ForeignGrace == 0 {
+				break
+			}
 			if deadline.IsZero() {
-				deadline = time.Now().Add(3 * time.Second)
+				deadline = time.Now().Add(s.ForeignGrace)
 			}
 			if time.Now().After(deadline) {
 				break
@@ -561,7 +583,12 @@ func RunOnce(prefix []int, body func(), seen map[uint64]int) *Sched {
 		a := alts[choice]
 		o := a.t.pending
 		p := Point{Thread: a.t.id, Kind: o.kind.String(), Site: o.site, NAlt: len(alts), Chosen: choice,
-			RunnerEn: runnerEnabled, NRunner: nRunner, NFirst: nFirst, Preempt: runnerEnabled && a.t != last}
+			RunnerEn: runnerEnabled, NRunner: nRunner, NFirst: nFirst, Preempt: runnerEnabled && a.t != last,
+			FP: mix(a.t.cid, uint64(o.kind), hs(o.site), uint64(len(alts)))}
+		if step < len(s.prefixFP) && s.prefixFP[step] != p.FP {
+			s.Diverged = fmt.Sprintf("step %d: replay divergence: now T%d %s %s (%d alternatives)", step, a.t.id, o.kind, o.site, len(alts))
+			break
+		}
 		s.trace = append(s.trace, p)
 		if DelayMode {
 			if choice >= nFirst {
@@ -614,3 +641,34 @@ func (s *Sched) BlockedReport() string {
 	}
 	return b.String()
 }
+
+
+// Fail records a monitor failure for the current execution (also when the
+// execution is later cut by the state cache).
+func Fail(format string, a ...interface{}) {
+	s := cs
+	if s == nil {
+		return
+	}
+	s.gmu.Lock()
+	s.Fails = append(s.Fails, fmt.Sprintf(format, a...))
+	s.gmu.Unlock()
+}
+
+// Touch orders the calling thread's history after every earlier Touch of the
+// same key, without being a scheduling point. Harness monitors call it when
+// they read or write monitor memory shared between threads, so that two
+// linearisations which differ in the order of monitor events are never merged
+// by the happens-before state cache.
+func Touch(key uintptr) {
+	t := curFast()
+	s := cs
+	if t == nil || s == nil {
+		return
+	}
+	t.hist = mix(t.hist, 23, s.objH[key])
+	s.objH[key] = t.hist
+}
+
+// Active reports whether an exploration is running and the caller is a managed thread.
+func Active() bool { return curFast() != nil }
